@@ -338,6 +338,10 @@ def _z3num(val):
         return Fraction(val.as_long())
     if z3.is_algebraic_value(val):
         return Fraction(val.approx(20).numerator_as_long(), val.approx(20).denominator_as_long())
+    if z3.is_fp(val):
+        r = z3.simplify(z3.fpToReal(val))      # a finite double is a rational number: exact
+        if z3.is_rational_value(r):
+            return Fraction(r.numerator_as_long(), r.denominator_as_long())
     raise Inconclusive("cannot extract value %s" % val)
 
 
